@@ -98,6 +98,12 @@ Theorem C16_implicit_permissions_listed_domains : forall ls policy u d p,
 Proof. exact implicit_permissions_dom_In. Qed.
 Print Assumptions C16_implicit_permissions_listed_domains.
 
+(* g() inside the model's matcher (HasLink with its frontier kept as a set, as in Go) is the
+   HasLink of C05 (Roles.has_link = reachability within 10 edges) *)
+Theorem C16_g_is_has_link : forall ls u r d, g_link ls u r d = has_link ls u r d.
+Proof. exact g_link_eq. Qed.
+Print Assumptions C16_g_is_has_link.
+
 (* the decision used above IS the streaming enforce loop + MergeEffects of C02 *)
 Theorem C16_enforce_is_effect_stream : forall k ls policy req,
   enforce_rbac k ls policy req = enforce_spec k ls policy req.
